@@ -112,7 +112,7 @@ class ParseFixer:
         """
         # TODO value can be something else than a string if it comes from e.g. Excel/openpyxl
         # TODO should not try to fix things that are illegal by design e.g. illegal empty cells
-        defaults = {"onoff": False, "datetime": pd.NaT, "float": np.NaN, "-": np.NaN}
+        defaults = {"onoff": False, "datetime": pd.NaT, "float": np.nan, "-": np.nan}
         msg = f"Illegal value '{value}' for unit '{vtype} ' in table '{self.table_name}'."
         self.messages.append(msg)
         if self.verbose:
